@@ -124,8 +124,19 @@ def build(desc, detour=False, extra_node="zz9", relabel=None):
         nodes = nodes[::-1]
         edges = edges[::-1]
         xn = extra_node if not nodes or isinstance(nodes[0], str) else 10 ** 6
-        # extra node + extra hyperedge touching a real node, to be removed again
+        # extra node + extra hyperedge touching a real node, inserted FIRST (so that internal ids of the real
+        # records do not coincide with their list positions) and removed again at the end
         h.add_node(xn)
+        if nodes:
+            a = R(nodes[0])
+            if k == "H":
+                h.add_edge((a, xn))
+            elif k == "D":
+                h.add_edge(((a,), (xn,)))
+            elif k == "T":
+                h.add_edge((a, xn), 7)
+            else:
+                h.add_edge((a, xn), "zz")
     for n in nodes:
         md = desc["nmd"].get(n)
         h.add_node(R(n), metadata=dict(md)) if md else h.add_node(R(n))
@@ -150,17 +161,21 @@ def build(desc, detour=False, extra_node="zz9", relabel=None):
             ee = tuple(R(x) for x in e[0])
             h.add_edge(ee[::-1] if detour else ee, e[1], **kw)
     if detour:
-        if nodes:
-            a = R(nodes[0])
-            if k == "H":
-                h.add_edge((a, xn))
-            elif k == "D":
-                h.add_edge(((a,), (xn,)))
-            elif k == "T":
-                h.add_edge((a, xn), 7)
-            else:
-                h.add_edge((a, xn), "zz")
         h.remove_node(xn)  # drops the extra hyperedge with it
+        if not desc["weighted"] and desc["edges"]:
+            # re-insert the first record, listed in the original order (idempotent for unweighted containers);
+            # its metadata is passed again so that the content stays the same
+            e = desc["edges"][0]
+            md = desc["emd"].get(e)
+            kw = {"metadata": dict(md)} if md else {}
+            if k == "H":
+                h.add_edge(tuple(R(x) for x in e), **kw)
+            elif k == "D":
+                h.add_edge((tuple(R(x) for x in e[0]), tuple(R(x) for x in e[1])), **kw)
+            elif k == "T":
+                h.add_edge(tuple(R(x) for x in e[1]), e[0], **kw)
+            else:
+                h.add_edge(tuple(R(x) for x in e[0]), e[1], **kw)
     for kk, v in desc.get("hmd", {}).items():
         h.set_attr_to_hypergraph_metadata(kk, v)
     return h
